@@ -7,6 +7,85 @@
 #include <string.h>
 #include <stdio.h>
 
+#ifdef NANOLANG_VERIF
+#include "verif_hooks.h"
+/* ---- H2: registry of live heap objects (open addressing, pointer -> id) ---- */
+typedef struct { void *ptr; int id; int tag; } NlvSlot;
+static NlvSlot *nlv_tab = NULL;
+static int nlv_cap = 0, nlv_live = 0, nlv_next_id = 1;
+static FILE *nlv_out = NULL;
+static int nlv_out_init = 0;
+static long nlv_fuel_val = -2;
+FILE *nlv_trace_file(void) {
+    if (!nlv_out_init) {
+        nlv_out_init = 1;
+        const char *path = getenv("NANOLANG_VERIF_TRACE");
+        if (path && path[0]) nlv_out = fopen(path, "a");
+    }
+    return nlv_out;
+}
+long nlv_fuel(void) {
+    if (nlv_fuel_val == -2) {
+        const char *f = getenv("NANOLANG_VERIF_FUEL");
+        nlv_fuel_val = (f && f[0]) ? atol(f) : -1;
+    }
+    return nlv_fuel_val;
+}
+static int nlv_active(void) { return nlv_trace_file() != NULL; }
+static unsigned nlv_hash(const void *p) { uintptr_t x = (uintptr_t)p; x ^= x >> 17; x *= 0x9E3779B1u; return (unsigned)(x ^ (x >> 13)); }
+static void nlv_grow(void) {
+    int ncap = nlv_cap ? nlv_cap * 2 : 1024;
+    NlvSlot *nt = calloc((size_t)ncap, sizeof(NlvSlot));
+    for (int i = 0; i < nlv_cap; i++) if (nlv_tab[i].ptr) {
+        unsigned h = nlv_hash(nlv_tab[i].ptr) & (unsigned)(ncap - 1);
+        while (nt[h].ptr) h = (h + 1) & (unsigned)(ncap - 1);
+        nt[h] = nlv_tab[i];
+    }
+    free(nlv_tab); nlv_tab = nt; nlv_cap = ncap;
+}
+void nlv_reg_alloc(void *ptr, int tag) {
+    if (!nlv_active() || !ptr) return;
+    if ((nlv_live + 1) * 2 > nlv_cap) nlv_grow();
+    unsigned h = nlv_hash(ptr) & (unsigned)(nlv_cap - 1);
+    while (nlv_tab[h].ptr && nlv_tab[h].ptr != ptr) h = (h + 1) & (unsigned)(nlv_cap - 1);
+    if (nlv_tab[h].ptr == ptr) fprintf(nlv_out, "{\"e\":\"badalloc\",\"id\":%d}\n", nlv_tab[h].id);
+    else nlv_live++;
+    nlv_tab[h].ptr = ptr; nlv_tab[h].id = nlv_next_id++; nlv_tab[h].tag = tag;
+}
+void nlv_reg_free(void *ptr, int tag) {
+    if (!nlv_active() || !ptr) return;
+    if (nlv_cap == 0) { fprintf(nlv_out, "{\"e\":\"badfree\",\"tag\":%d}\n", tag); return; }
+    unsigned h = nlv_hash(ptr) & (unsigned)(nlv_cap - 1);
+    while (nlv_tab[h].ptr && nlv_tab[h].ptr != ptr) h = (h + 1) & (unsigned)(nlv_cap - 1);
+    if (!nlv_tab[h].ptr) { fprintf(nlv_out, "{\"e\":\"badfree\",\"tag\":%d}\n", tag); return; }   /* not live: double free */
+    /* delete with backward shift so that probing stays correct */
+    unsigned i = h, mask = (unsigned)(nlv_cap - 1);
+    for (;;) {
+        unsigned j = (i + 1) & mask;
+        if (!nlv_tab[j].ptr) break;
+        unsigned k = nlv_hash(nlv_tab[j].ptr) & mask;
+        if ((i <= j) ? (i < k && k <= j) : (i < k || k <= j)) { i = j; continue; }
+        nlv_tab[h] = nlv_tab[j]; h = j; i = j;
+    }
+    nlv_tab[h].ptr = NULL; nlv_live--;
+}
+int nlv_reg_id(const void *ptr) {
+    if (!ptr || nlv_cap == 0) return -1;
+    unsigned h = nlv_hash(ptr) & (unsigned)(nlv_cap - 1);
+    while (nlv_tab[h].ptr && nlv_tab[h].ptr != ptr) h = (h + 1) & (unsigned)(nlv_cap - 1);
+    return nlv_tab[h].ptr ? nlv_tab[h].id : -1;
+}
+int nlv_reg_count(void) { return nlv_live; }
+int nlv_reg_cap(void) { return nlv_cap; }
+const void *nlv_reg_ptr_at(int slot, int *id, int *tag) {
+    if (slot < 0 || slot >= nlv_cap || !nlv_tab[slot].ptr) return NULL;
+    *id = nlv_tab[slot].id; *tag = nlv_tab[slot].tag; return nlv_tab[slot].ptr;
+}
+#else
+#define NLV_ALLOC(p, tag) ((void)0)
+#define NLV_FREE(p, tag)  ((void)0)
+#endif
+
 /* ========================================================================
  * Heap Init / Destroy
  * ======================================================================== */
@@ -42,6 +121,13 @@ static uint32_t fnv1a(const char *data, uint32_t len) {
     }
     return hash;
 }
+
+#ifdef NANOLANG_VERIF
+/* content key of a string as shown in the trace (interning is by content) */
+unsigned nlv_str_key(const char *data, uint32_t len) {
+    return (fnv1a(data, len) ^ (len * 2654435761u)) & 0x3FFFFFFF;
+}
+#endif
 
 /* ========================================================================
  * Reference Counting
@@ -84,6 +170,7 @@ void vm_release(VmHeap *heap, NanoValue v) {
                     break;
                 }
             }
+            NLV_FREE(s, TAG_STRING);
             free(s);
             break;
         }
@@ -120,6 +207,7 @@ static void release_array(VmHeap *heap, VmArray *a) {
     heap->stats.freed += sizeof(VmArray) + a->capacity * sizeof(NanoValue);
     heap->stats.num_objects--;
     free(a->elements);
+    NLV_FREE(a, TAG_ARRAY);
     free(a);
 }
 
@@ -139,6 +227,7 @@ static void release_struct(VmHeap *heap, VmStruct *s) {
     heap->stats.freed += sizeof(VmStruct) + s->field_count * sizeof(NanoValue);
     heap->stats.num_objects--;
     free(s->fields);
+    NLV_FREE(s, TAG_STRUCT);
     free(s);
 }
 
@@ -149,6 +238,7 @@ static void release_union(VmHeap *heap, VmUnion *u) {
     heap->stats.freed += sizeof(VmUnion) + u->field_count * sizeof(NanoValue);
     heap->stats.num_objects--;
     free(u->fields);
+    NLV_FREE(u, TAG_UNION);
     free(u);
 }
 
@@ -159,6 +249,7 @@ static void release_tuple(VmHeap *heap, VmTuple *t) {
     size_t sz = sizeof(VmTuple) + t->count * sizeof(NanoValue);
     heap->stats.freed += sz;
     heap->stats.num_objects--;
+    NLV_FREE(t, TAG_TUPLE);
     free(t);
 }
 
@@ -169,6 +260,7 @@ static void release_closure(VmHeap *heap, VmClosure *c) {
     size_t sz = sizeof(VmClosure) + c->capture_count * sizeof(NanoValue);
     heap->stats.freed += sz;
     heap->stats.num_objects--;
+    NLV_FREE(c, TAG_FUNCTION);
     free(c);
 }
 
@@ -186,6 +278,7 @@ static void release_hashmap(VmHeap *heap, VmHashMap *m) {
     heap->stats.freed += sizeof(VmHashMap) + m->bucket_count * sizeof(VmHMEntry *);
     heap->stats.num_objects--;
     free(m->buckets);
+    NLV_FREE(m, TAG_HASHMAP);
     free(m);
 }
 
@@ -219,6 +312,7 @@ VmString *vm_string_new(VmHeap *heap, const char *data, uint32_t length) {
 
     heap->stats.allocated += sz;
     heap->stats.num_objects++;
+    NLV_ALLOC(s, TAG_STRING);
 
     /* Add to intern table */
     if (heap->intern_count >= heap->intern_capacity) {
@@ -322,6 +416,7 @@ VmArray *vm_array_new(VmHeap *heap, uint8_t elem_type, uint32_t initial_capacity
     a->elements = calloc(initial_capacity, sizeof(NanoValue));
     heap->stats.allocated += sizeof(VmArray) + initial_capacity * sizeof(NanoValue);
     heap->stats.num_objects++;
+    NLV_ALLOC(a, TAG_ARRAY);
     return a;
 }
 
@@ -396,6 +491,7 @@ VmStruct *vm_struct_new(VmHeap *heap, uint32_t def_idx, uint32_t field_count) {
     s->fields = calloc(field_count, sizeof(NanoValue));
     heap->stats.allocated += sizeof(VmStruct) + field_count * sizeof(NanoValue);
     heap->stats.num_objects++;
+    NLV_ALLOC(s, TAG_STRUCT);
     return s;
 }
 
@@ -414,6 +510,7 @@ VmUnion *vm_union_new(VmHeap *heap, uint32_t def_idx, uint16_t variant, uint16_t
     u->fields = calloc(field_count, sizeof(NanoValue));
     heap->stats.allocated += sizeof(VmUnion) + field_count * sizeof(NanoValue);
     heap->stats.num_objects++;
+    NLV_ALLOC(u, TAG_UNION);
     return u;
 }
 
@@ -430,6 +527,7 @@ VmTuple *vm_tuple_new(VmHeap *heap, uint32_t count) {
     t->count = count;
     heap->stats.allocated += sz;
     heap->stats.num_objects++;
+    NLV_ALLOC(t, TAG_TUPLE);
     return t;
 }
 
@@ -447,6 +545,7 @@ VmClosure *vm_closure_new(VmHeap *heap, uint32_t fn_idx, uint16_t capture_count)
     c->capture_count = capture_count;
     heap->stats.allocated += sz;
     heap->stats.num_objects++;
+    NLV_ALLOC(c, TAG_FUNCTION);
     return c;
 }
 
@@ -479,6 +578,7 @@ VmHashMap *vm_hashmap_new(VmHeap *heap, uint8_t key_type, uint8_t val_type) {
     m->buckets = calloc(HM_INITIAL_BUCKETS, sizeof(VmHMEntry *));
     heap->stats.allocated += sizeof(VmHashMap) + HM_INITIAL_BUCKETS * sizeof(VmHMEntry *);
     heap->stats.num_objects++;
+    NLV_ALLOC(m, TAG_HASHMAP);
     return m;
 }
 
